@@ -105,6 +105,13 @@ async def run_case(case):
                             if raises:
                                 raise RuntimeError("teardown action failed")
                             stop.set()
+                if callable(ta) and sv.get("async_action") and sid % 2 == 0:
+                    # an asynchronous teardown action need not be a coroutine function: a plain callable
+                    # handing back a coroutine
+                    inner_ta = ta
+
+                    def ta(inner_ta=inner_ta):
+                        return inner_ta()
                 if sid % 2 and helper.get("ready"):
                     # the call is made on the owning context by a task whose current context is another
                     # one (the outer context): the task belongs to the context whose method was called
